@@ -157,6 +157,7 @@ struct World {
     /// a transaction is open (the vector is temporarily moved out of `vec`)
     in_txn: bool,
     shared_flag: Option<Arc<Flag>>,
+    txn_had_oob: bool,
 }
 
 fn hash_state(v: &[MVal]) -> u64 {
@@ -386,7 +387,8 @@ fn exec_rvop<T: Target>(ck: &mut Ck, target: &mut T, model: &mut Vec<MVal>, op: 
             let old = old.m();
             let exp = std::mem::replace(&mut model[*i], *m);
             ck.note_set(exp.0, m.0);
-            ck.check(idx == *i && cur == exp && old == exp, &p17, || {
+            let pe: &[Prop] = if in_txn { &[C17, C07] } else { &[C17] };
+            ck.check(idx == *i && cur == exp && old == exp, pe, || {
                 format!("entry({i}): index {idx}, deref {:?}, set returned {:?}; expected index {i}, value {:?}", cur, old, exp)
             })?;
             1
@@ -395,7 +397,8 @@ fn exec_rvop<T: Target>(ck: &mut Ck, target: &mut T, model: &mut Vec<MVal>, op: 
             let (idx, cur, old) = target.t_entry_remove(*i);
             let old = old.m();
             let exp = model.remove(*i);
-            ck.check(idx == *i && cur == exp && old == exp, &p17, || {
+            let pe: &[Prop] = if in_txn { &[C17, C07] } else { &[C17] };
+            ck.check(idx == *i && cur == exp && old == exp, pe, || {
                 format!("entry({i}): index {idx}, deref {:?}, remove returned {:?}; expected index {i}, value {:?}", cur, old, exp)
             })?;
             1
@@ -403,7 +406,8 @@ fn exec_rvop<T: Target>(ck: &mut Ck, target: &mut T, model: &mut Vec<MVal>, op: 
         RVOp::Traverse { entries, acts } => {
             let got = target.t_traverse(*entries, acts);
             let (exp, eff) = model_traverse(model, *entries, acts);
-            ck.check(got == exp, &p17, || format!("traversal visited {:?}, expected {:?}", got, exp))?;
+            let pt: &[Prop] = if in_txn { &[C17, C07] } else { &[C17] };
+            ck.check(got == exp, pt, || format!("traversal visited {:?}, expected {:?}", got, exp))?;
             let mut prev_removed = false;
             for v in &exp {
                 if prev_removed && (v.set_ret.is_some() || v.rem_ret.is_some()) {
@@ -465,6 +469,7 @@ impl World {
     /// call that must have broadcast exactly n single-diff messages; None for a transaction
     /// (`committed` tells which end it had).
     fn after_source_op(&mut self, direct_msgs: Option<usize>, committed: bool, predicted_k: usize, what: &str) -> R {
+        let had_oob = std::mem::take(&mut self.txn_had_oob);
         if self.probe.is_some() {
             let item = self.poll_probe()?;
             let replica_ok = self.probe.as_ref().map(|p| p.1 == self.model).unwrap_or(true);
@@ -498,7 +503,8 @@ impl World {
                         self.msgs.push(Msg { txn: true, k: ds.len(), diffs: Some(ds) });
                     }
                     // the probe is a batched subscriber with an empty pipeline: C13's business too
-                    self.ck.check(replica_ok, &[C05, C06, C07, C13], || {
+                    let props: &[Prop] = if had_oob { &[C05, C06, C07, C13, C17] } else { &[C05, C06, C07, C13] };
+                    self.ck.check(replica_ok, props, || {
                         format!("{what}: replica of an up-to-date subscriber {:?} != vector contents {:?}", self.probe.as_ref().unwrap().1, self.model)
                     })?;
                 }
@@ -648,6 +654,9 @@ impl World {
                                 let mut vop = vop.clone();
                                 self.avoid_k2(&mut vop, working.len(), Some(&working));
                                 let r = self.resolve(&vop, working.len());
+                                if matches!(r, RVOp::OobInsert(..) | RVOp::OobSet(..) | RVOp::OobRemove(_) | RVOp::OobEntry(_)) {
+                                    self.txn_had_oob = true;
+                                }
                                 let eff = exec_rvop(&mut self.ck, &mut txn, &mut working, &r, true)?;
                                 if receivers_gone {
                                     // no receiver left: the library records nothing any more
@@ -1436,6 +1445,7 @@ fn run_inner(case: &VecCase, prop: Prop) -> R<(CaseReport, Feat)> {
         subs: vec![],
         in_txn: false,
         shared_flag: if case.shared_waker { Some(Flag::new()) } else { None },
+        txn_had_oob: false,
     };
     let init: Vec<MVal> = case.initial.iter().map(|k| w.new_val(*k)).collect();
     if !init.is_empty() {
